@@ -150,6 +150,36 @@ Theorem alias_mass : forall p, p <> [] -> is_dist p ->
 Proof. exact alias_mass_lemma. Qed.
 Print Assumptions alias_mass.
 
+(* for every vector isProbability accepts (sum within tolerance of one) the repaired constructor keeps
+   every mass within |sum p - 1| of p_i … *)
+Theorem alias_mass_slack : forall p d, p <> [] -> nonneg p -> - d <= qsum p - 1 -> qsum p - 1 <= d ->
+  let '(prob, alias) := vose_fix p in
+  length prob = length p /\ length alias = length p /\
+  Forall (fun a => (a < length p)%nat) alias /\
+  forall i, (i < length p)%nat ->
+    - d <= Spec.alias_mass prob alias i - nthq p i /\ Spec.alias_mass prob alias i - nthq p i <= d.
+Proof. exact alias_mass_slack_lemma. Qed.
+Print Assumptions alias_mass_slack.
+
+(* … and never gives mass to an index of probability zero (shortfall below one cell, i.e. any
+   tolerated sum for n < 10^6): the sampler stays inside the support *)
+Theorem alias_support : forall p, p <> [] -> nonneg p -> - (1 / qn (length p)) < qsum p - 1 ->
+  let '(prob, alias) := vose_fix p in
+  forall i, (i < length p)%nat -> nthq p i == 0 -> Spec.alias_mass prob alias i == 0.
+Proof. exact alias_support_lemma. Qed.
+Print Assumptions alias_support.
+
+(* the checker the driver applies to dumped tables when the sum is not exactly one *)
+Theorem alias_slack_checker_sound : forall p prob alias, alias_table_slack_ok p prob alias = true ->
+  length prob = length p /\ length alias = length p /\
+  Forall (fun a => (a < length p)%nat) alias /\
+  forall i, (i < length p)%nat ->
+    - qabs (qsum p - 1) <= Spec.alias_mass prob alias i - nthq p i /\
+    Spec.alias_mass prob alias i - nthq p i <= qabs (qsum p - 1) /\
+    (nthq p i == 0 -> Spec.alias_mass prob alias i == 0).
+Proof. exact alias_table_slack_ok_sound. Qed.
+Print Assumptions alias_slack_checker_sound.
+
 (* ---- sampling a model (MDP::Model / SparseModel::sampleSR, POMDP::Model::sampleSOR) follows the
    model's own tables: next state i is drawn on an interval of length T(s,a,i), the reward is R(s,a),
    the observation j on an interval of length O(s1,a,j) ---- *)
@@ -172,6 +202,28 @@ Theorem sample_sor_follows_model : forall m s a, wf_pomdp m -> (s < nS (pm m))%n
     cum (orow m s1 a) (S j) - cum (orow m s1 a) j == nthq (orow m s1 a) j.
 Proof. exact sample_sor_lemma. Qed.
 Print Assumptions sample_sor_follows_model.
+
+(* range and composition for arbitrary stored rows (sums below one, entries dropped by sparse
+   storage): indices stay below the row sizes and equal the dense sampler on the model's own rows *)
+Theorem sample_sr_in_range : forall m s a u, length (trow m s a) = nS m -> (0 < nS m)%nat ->
+  (fst (sample_sr m s a u) < nS m)%nat /\ fst (sample_sr m s a u) = sample_dense (trow m s a) u.
+Proof. exact sample_sr_in_range_lemma. Qed.
+Print Assumptions sample_sr_in_range.
+
+Theorem sample_or_in_range : forall m s a s1 u, length (orow m s1 a) = nO m -> (0 < nO m)%nat ->
+  (fst (sample_or m s a s1 u) < nO m)%nat /\ fst (sample_or m s a s1 u) = sample_dense (orow m s1 a) u.
+Proof. exact sample_or_in_range_lemma. Qed.
+Print Assumptions sample_or_in_range.
+
+Theorem sample_sor_in_range : forall m s a u1 u2,
+  (forall s1, (s1 < nS (pm m))%nat -> length (orow m s1 a) = nO m) ->
+  length (trow (pm m) s a) = nS (pm m) -> (0 < nS (pm m))%nat -> (0 < nO m)%nat ->
+  let '(s1, o, r) := sample_sor m s a u1 u2 in
+  (s1 < nS (pm m))%nat /\ (o < nO m)%nat /\
+  s1 = sample_dense (trow (pm m) s a) u1 /\ o = sample_dense (orow m s1 a) u2 /\
+  r = nthq (row (R (pm m)) s) a.
+Proof. exact sample_sor_in_range_lemma. Qed.
+Print Assumptions sample_sor_in_range.
 
 (* hypotheses are satisfiable on non-trivial inputs *)
 Example ex_dense_nonvacuous :
@@ -212,3 +264,10 @@ Example ex_sample_sr_nonvacuous :
   let m := {| nS := 2; nA := 1; P := [[[1 # 2; 1 # 2]; [0; 1]]]; R := [[3]; [-(2)]]; gam := 1 # 2 |} in
   wf_mdpb m = true /\ sample_sr m 0 0 (3 # 4) = (1%nat, 3).
 Proof. split; reflexivity. Qed.
+
+(* a vector with a zero entry and a sum below one: the table passes the slack checker *)
+Example ex_alias_slack_nonvacuous :
+  let p := [0; 1 # 2; (1 # 2) - (1 # 1048576)] in
+  nonneg p /\ - (1 / qn (length p)) < qsum p - 1 /\
+  (let '(prob, alias) := vose_fix p in alias_table_slack_ok p prob alias) = true.
+Proof. split; [repeat constructor; discriminate| split; vm_compute; reflexivity]. Qed.
